@@ -80,6 +80,28 @@ def recv_scenario(name, tx, rx, transport, timeo):
             "tasks": [{"name": "rx", "ops": rops}, {"name": "tx", "ops": tops}]}
 
 
+def recv_churn_scenario(name, peer, rx, transport, timeo, npeers=30, every_ms=100):
+    """recv() with a positive RCVTIMEO and nothing to receive, while peers connect (and some leave again) at
+    intervals shorter than the time-out: every call must still return after RCVTIMEO, however much happens
+    on the socket's connections meanwhile"""
+    ep = S.endpoint(transport, name)
+    rxo = [S.i32(S.RCVTIMEO, timeo)] + ([[S.SUBSCRIBE, "str", ""]] if rx == "SUB" else [])
+    socks = [{"name": "rx", "type": rx, "opts": rxo}]
+    cops = [{"op": "barrier", "name": "go", "parties": 2}]
+    for i in range(npeers):
+        nm = "c%d" % i
+        socks.append({"name": nm, "type": peer, "opts": [[S.ROUTING_ID, "str", "id-%02d" % i], S.i32(S.LINGER, 0), S.i32(S.SNDTIMEO, 500), S.i32(S.RCVTIMEO, 500)]})
+        cops.append({"op": "connect", "sock": nm, "ep": "$ep"})
+        cops.append({"op": "sleep", "ms": every_ms})
+        if i % 3 == 2:
+            cops.append({"op": "close", "sock": "c%d" % (i - 2), "timeout_ms": 3000})
+    nrecv = max(2, (npeers * every_ms) // max(timeo, 1) - 1)
+    rops = [{"op": "bind", "sock": "rx", "ep": ep, "save": "ep"}, {"op": "barrier", "name": "go", "parties": 2}, {"op": "sleep", "ms": 150}]
+    rops += [{"op": "recv", "sock": "rx"} for _ in range(min(nrecv, 8))]
+    return {"name": name, "deadline_ms": 60000, "meta": {"timeo": timeo, "kind": "recv", "churn": True},
+            "sockets": socks, "tasks": [{"name": "rx", "ops": rops}, {"name": "churn", "ops": cops}]}
+
+
 def classify(res):
     if res == "ok":
         return "ok"
@@ -140,6 +162,11 @@ def run(ctx):
             if tx == "ROUTER":
                 continue
             scs.append(recv_scenario("recv-%s-%d" % (rx.lower(), timeo), tx, rx, "tcp", timeo))
+    # timed recv() on every receiving socket type while connections come and go
+    for (peer, rx) in [("DEALER", "ROUTER"), ("PUSH", "PULL"), ("ROUTER", "DEALER"), ("PUB", "SUB")] + ([("REQ", "REP")] if thorough else []):
+        for tr in (["tcp", "ipc"] if thorough else ["tcp"]):
+            scs.append(recv_churn_scenario("recv-churn-%s-300-%s" % (rx.lower(), tr), peer, rx, tr, 300))
+    scs.append(recv_scenario("recv-router-300", "DEALER", "ROUTER", "tcp", 300))
     metas = [s.pop("meta") for s in scs]
     res = S.run_scenarios(ctx, scs, "c14", timeout=2400, jobs=3)
     calls = []
